@@ -485,6 +485,40 @@ def run(F, chk):
                           "indexes the empty block list" % rv["val"])
     chk.floor(R8, 3)
 
+    # ---------------------------------------------------------------- R16.9
+    R9 = chk.rule("R16.9", "on the load path a text-to-number conversion that throws on malformed input (std::stoi and relatives) is applied "
+                           "only to text a pattern has already validated — a match of a std::regex search — or inside a try block: a "
+                           "header line cut in the middle of the version number must end in an error code, not in an exception leaving "
+                           "Load")
+    load_reach = F.reachable([loads8[0]["id"]]) | {loads8[0]["id"]}
+    n9 = 0
+    for fid in sorted(load_reach):
+        g = F.fns.get(fid)
+        if not g or not g.get("body") or not (g.get("file") or "").startswith(("src/", "include/")):
+            continue
+        tries = [t for t in walk(g["body"]) if t["k"] == "Try"]
+        in_try = {id(x) for t in tries for x in walk(t.get("body") or {})}
+        match_vars = set()
+        for d in walk(g["body"]):
+            if d["k"] == "Decl":
+                for v in d.get("vars", []):
+                    if "match_results" in (v.get("ct") or v.get("t") or "") or "smatch" in (v.get("t") or "") or "cmatch" in (v.get("t") or ""):
+                        match_vars.add(v["id"])
+        for n in walk(g["body"]):
+            if not (n["k"] == "Call" and n.get("ext") and (n.get("short") or "") in ("stoi", "stol", "stoll", "stoul", "stoull", "stof", "stod", "stold")
+                    and n.get("args")):
+                continue
+            n9 += 1
+            validated = any(x["k"] == "Ref" and x.get("id") in match_vars for x in walk(n["args"][0]))
+            ok = validated or id(n) in in_try
+            chk.instance(R9, ok=ok, sample={"fn": g["name"], "call": show(n)[:60], "validated_by": "regex match" if validated else ("try" if ok else None)})
+            if not ok:
+                chk.violation("R16.9", "C16/R16.9:%s:%s" % (g["name"].split("(")[0], n["short"]), where(g, n),
+                              "%s converts `%s` with std::%s on the load path; the text is not a regex match and the call is not inside "
+                              "a try block: for a file cut inside that number the conversion throws (std::invalid_argument) and the "
+                              "exception leaves Load" % (g["name"], show(n["args"][0])[:50], n["short"]))
+    chk.floor(R9, 1)
+
 
 def _pos_guard(st, d):
     """divisor proven >= 1 by a comparison fact like (0 < d) or !(d < 1)"""
